@@ -4,6 +4,7 @@ normalisation) from a tree (default /repo).  Run only when the pinned tree is th
 import ast, json, os, sys
 sys.path.insert(0, os.path.dirname(os.path.dirname(os.path.abspath(__file__))))
 from sa.locals_ref import build_reference, REF_PATH
+from sa.canon import canonicalise_comparisons
 root = sys.argv[1] if len(sys.argv) > 1 else '/repo'
 mods = {}
 for dp, dn, fn in os.walk(os.path.join(root, 'jedi')):
@@ -14,7 +15,7 @@ for dp, dn, fn in os.walk(os.path.join(root, 'jedi')):
             parts = os.path.relpath(p, root)[:-3].split(os.sep)
             if parts[-1] == '__init__':
                 parts = parts[:-1]
-            mods['.'.join(parts)] = ast.parse(open(p, encoding='utf-8').read())
+            mods['.'.join(parts)] = canonicalise_comparisons(ast.parse(open(p, encoding='utf-8').read()))
 ref = build_reference(mods)
 json.dump(ref, open(REF_PATH, 'w'), indent=0)     # insertion order = order of first binding: used to pair equal fingerprints
-print('%d modules, %d functions with locals, %d functions in all' % (len(ref) - 2, sum(len(v) for k, v in ref.items() if not k.startswith('__')), sum(len(v) for v in ref['__functions__'].values())))
+print('%d modules, %d functions with locals, %d functions in all' % (len(ref) - 3, sum(len(v) for k, v in ref.items() if not k.startswith('__')), sum(len(v) for v in ref['__functions__'].values())))
